@@ -526,10 +526,13 @@ impl TryFrom<NaiveDateTime> for IntervalDT {
 
     #[inline]
     fn try_from(dt: NaiveDateTime) -> Result<Self> {
+        // `dt.usec` may be 1_000_000 (a fraction rounded up to a full second): carry it into the total
+        let whole = IntervalDT::try_from_dhms(dt.day, dt.hour, dt.minute, dt.sec, 0)?;
+        let interval = IntervalDT::try_from_usecs(whole.usecs() + dt.usec as i64)?;
         if dt.negative {
-            Ok(IntervalDT::try_from_dhms(dt.day, dt.hour, dt.minute, dt.sec, dt.usec)?.negate())
+            Ok(interval.negate())
         } else {
-            IntervalDT::try_from_dhms(dt.day, dt.hour, dt.minute, dt.sec, dt.usec)
+            Ok(interval)
         }
     }
 }
